@@ -1894,6 +1894,9 @@ class ContractionTree:
                 i = -1
             rng = None
 
+        # the random subtree search must draw from the seeded generator too
+        search_rng = get_rng(seed) if rng is None else rng
+
         candidates, weights = tree.calc_subtree_candidates(
             pwr=weight_pwr, what=weight_what
         )
@@ -1915,7 +1918,10 @@ class ContractionTree:
 
                 # get a subtree to possibly reconfigure
                 sub_leaves, sub_branches = tree.get_subtree(
-                    sub_root, size=subtree_size, search=subtree_search
+                    sub_root,
+                    size=subtree_size,
+                    search=subtree_search,
+                    seed=search_rng,
                 )
 
                 sub_leaves = frozenset(sub_leaves)
